@@ -52,26 +52,26 @@ Record astate := mkA { a_started : bool; a_it : iter }.
 
 (* the loop of toChunk (repaired): append the samples up to maxTime that are not
    before minTime; stop AT the first sample beyond maxTime without consuming it *)
-Fixpoint to_chunk_loop (o : iobj) (fuel : nat) (x : X o) (mint maxt : Z) (acc : list sample)
+Fixpoint to_chunk_loop (o : iobj) (fuel : nat) (x : X o) (mint maxt : Z) (racc : list sample)
   : X o * list sample :=
   match fuel with
-  | O => (x, acc)
+  | O => (x, racc)
   | S f =>
     if valid o x then
       let s := at_ o x in
-      if ts s >? maxt then (x, acc)
-      else to_chunk_loop o f (next o x) mint maxt (if ts s >=? mint then acc ++ [s] else acc)
-    else (x, acc)
+      if ts s >? maxt then (x, racc)
+      else to_chunk_loop o f (next o x) mint maxt (if ts s >=? mint then s :: racc else racc)
+    else (x, racc)
   end.
 
 Definition to_chunk (counter : bool) (st : astate) (mint maxt : Z) : astate * option (list sample) :=
   let o := io (a_it st) in
   let x0 := if a_started st then ist (a_it st) else next o (ist (a_it st)) in
-  let '(x1, samples) := to_chunk_loop o (S (size o x0)) x0 mint maxt [] in
+  let '(x1, racc) := to_chunk_loop o (S (size o x0)) x0 mint maxt [] in
   (mkA true (mkIter o x1),
-   match samples with
+   match racc with
    | [] => None                     (* no sample in the required time range *)
-   | _ => Some (if counter then samples ++ [last samples (0, 0)] else samples)
+   | l :: _ => Some (rev (if counter then l :: racc else racc))   (* counter: last sample once more *)
    end).
 
 (* one output chunk: time range and the five aggregates *)
@@ -126,17 +126,75 @@ Definition to_chunk_shape_ok : bool :=
 Close Scope string_scope.
 
 (* ---- correspondence and predicate ---- *)
+(* Compact encoding of the observed data (Coq parses long literal lists slowly):
+   an input chunk is its list of timestamps and the values of each aggregate
+   (the counter aggregate has one value more: its last timestamp is repeated);
+   all timestamps are relative to [base]. *)
+Definition enc_chunk := (list Z * list (option (list Z)))%type.
+
+Definition dec_aggr (base : Z) (tsl : list Z) (i : nat) (vs : option (list Z)) : option (list sample) :=
+  match vs with
+  | None => None
+  | Some v =>
+    let tl := map (Z.add base) tsl in
+    Some (combine (if Nat.eqb i 4 then tl ++ [last tl 0] else tl) v)
+  end.
+Fixpoint dec_aggrs (base : Z) (tsl : list Z) (i : nat) (l : list (option (list Z))) : achunk :=
+  match l with
+  | [] => []
+  | v :: r => dec_aggr base tsl i v :: dec_aggrs base tsl (S i) r
+  end.
+Definition dec_chunk (base : Z) (c : enc_chunk) : achunk := dec_aggrs base (fst c) 0 (snd c).
+
+Definition shift_samples (base : Z) (l : list sample) : list sample :=
+  map (fun s => (base + fst s, snd s)) l.
+
+(* an output chunk as observed: the count aggregate's samples; every other
+   aggregate either by its values only (when its timestamps are exactly the
+   count's, for the counter plus the repeated last one) or by its samples *)
+Inductive oaggr := OAbsent | OSame (vals : list Z) | OPairs (l : list sample).
+Definition enc_ochunk := (Z * Z * list sample * list oaggr)%type.
+
+Definition dec_oaggr (base : Z) (cnt : list sample) (i : nat) (a : oaggr) : option (list sample) :=
+  match a with
+  | OAbsent => None
+  | OPairs l => Some (shift_samples base l)
+  | OSame vals =>
+    let tl := map (fun s => base + fst s) cnt in
+    Some (combine (if Nat.eqb i 4 then tl ++ [last tl 0] else tl) vals)
+  end.
+Fixpoint dec_oaggrs (base : Z) (cnt : list sample) (i : nat) (l : list oaggr) : list (option (list sample)) :=
+  match l with
+  | [] => []
+  | a :: r => dec_oaggr base cnt i a :: dec_oaggrs base cnt (S i) r
+  end.
+Definition dec_ochunk (base : Z) (oc : enc_ochunk) : ochunk :=
+  let '(m, x, cnt, l) := oc in
+  (base + m, base + x, Some (shift_samples base cnt) :: dec_oaggrs base cnt 1 l).
+
 Inductive case :=
-| Case (base : achunk) (others : list achunk) (out : list ochunk).
+| Case (base : Z) (chunks : list enc_chunk) (out : list enc_ochunk).
 
 Definition samples_eqb := list_eqb sample_eqb.
 Definition ochunk_eqb (a b : ochunk) : bool :=
   let '(m1, x1, l1) := a in let '(m2, x2, l2) := b in
   (m1 =? m2) && (x1 =? x2) && list_eqb (option_eqb samples_eqb) l1 l2.
 
-Definition corr_ok (c : case) : bool :=
+Definition case_input (c : case) : option (achunk * list achunk) :=
   match c with
-  | Case base others out => option_eqb (list_eqb ochunk_eqb) (merge_group base others) (Some out)
+  | Case base chunks _ =>
+    match map (dec_chunk base) chunks with
+    | [] => None
+    | b :: o => Some (b, o)
+    end
+  end.
+Definition case_output (c : case) : list ochunk :=
+  match c with Case base _ out => map (dec_ochunk base) out end.
+
+Definition corr_ok (c : case) : bool :=
+  match case_input c with
+  | None => false
+  | Some (b, o) => option_eqb (list_eqb ochunk_eqb) (merge_group b o) (Some (case_output c))
   end.
 
 (* well-formed downsampled input chunk: all five aggregates present, count
@@ -164,7 +222,8 @@ Definition ochunk_ok (oc : ochunk) : bool :=
   end.
 
 Definition pred_ok (c : case) : bool :=
-  match c with
-  | Case base others out =>
-      if wf_chunk base && forallb wf_chunk others then forallb ochunk_ok out else true
+  match case_input c with
+  | None => false
+  | Some (b, o) =>
+      if wf_chunk b && forallb wf_chunk o then forallb ochunk_ok (case_output c) else true
   end.
